@@ -227,6 +227,28 @@ def size_boundary_cases(rng, spec, idx0):
             reply += b"\0" + struct.pack(">HHIH", 65280, 1, 60, L) + bytes(rng.randrange(256) for _ in range(L))
             assert len(reply) <= 65535
             out.append("z%d cfg=%s l=%s client=- q=%s up=reply:%s" % (idx, spec, l, gens.hx(q), gens.hx(reply)))
+    # UDP: the size the CLIENT advertises (none, 0, 1, 511, 512, 513, 1232) against replies of about 500 .. 3000 octets: the
+    # datagram never exceeds max(512, advertised) (seed C09-T: an advertised size of exactly 0 switched truncation off)
+    for adv in (None, 0, 0, 1, 511, 512, 513, 1232):
+        for target in (rng.choice([505, 512]), rng.choice([513, 530, 700]), rng.choice([1232, 1233, 1300]), 3000):
+            idx += 1
+            l = rng.choice(["udp", "udp", "udpds"])
+            labels = [b"ad%d" % idx, rng.choice(VOCAB)]
+            name = gens.raw_name(labels)
+            qtype, qclass = rng.choice([1, 16, 255]), idx % 65536
+            question = name + b"\0" + struct.pack(">HH", qtype, qclass)
+            q = struct.pack(">HHHHHH", rng.randrange(65536), 0x0100, 1, 0, 0, 0 if adv is None else 1) + question
+            if adv is not None:
+                q += opt_rr(rng, size=adv, options=0)
+            # several small records (so that truncation keeps some of them) of an unknown type owned by the root
+            reply = struct.pack(">HHHHHH", 0, 0x8180, 1, 0, 0, 0) + question
+            nrec = 0
+            while len(reply) + (11 if adv is not None else 0) < target:
+                L = min(rng.choice([20, 60, 100]), max(0, target - len(reply) - 11 - (11 if adv is not None else 0)))
+                reply += b"\0" + struct.pack(">HHIH", 65280, 1, 60, L) + bytes(rng.randrange(256) for _ in range(L))
+                nrec += 1
+            reply = reply[:6] + struct.pack(">H", nrec) + reply[8:]
+            out.append("z%d cfg=%s l=%s client=- q=%s up=reply:%s" % (idx, spec, l, gens.hx(q), gens.hx(reply)))
     return out, idx
 
 
